@@ -147,7 +147,8 @@ struct SIMDVector<std::complex<double>, simd_abi::avx512> {
     FASTOR_INLINE void operator/=(scalar_value_type num) {
         *this /= vector_type(num);
     }
-    FASTOR_INLINE void operator/=(const vector_type &a) {
+    FASTOR_INLINE void operator/=(const vector_type &a_) {
+        const vector_type a(a_); // a_ may be *this
         __m512d tmp = value_r;
 #ifdef FASTOR_FMA_IMPL
         value_r     = _mm512_fmadd_pd(value_r  , a.value_r, _mm512_mul_pd(value_i,a.value_i));
@@ -675,7 +676,8 @@ struct SIMDVector<std::complex<double>, simd_abi::avx> {
     FASTOR_INLINE void operator/=(scalar_value_type num) {
         *this /= vector_type(num);
     }
-    FASTOR_INLINE void operator/=(const vector_type &a) {
+    FASTOR_INLINE void operator/=(const vector_type &a_) {
+        const vector_type a(a_); // a_ may be *this
         __m256d tmp = value_r;
 #ifdef FASTOR_FMA_IMPL
         value_r     = _mm256_fmadd_pd(value_r  , a.value_r, _mm256_mul_pd(value_i,a.value_i));
@@ -1189,7 +1191,8 @@ struct SIMDVector<std::complex<double>, simd_abi::sse> {
     FASTOR_INLINE void operator/=(scalar_value_type num) {
         *this /= vector_type(num);
     }
-    FASTOR_INLINE void operator/=(const vector_type &a) {
+    FASTOR_INLINE void operator/=(const vector_type &a_) {
+        const vector_type a(a_); // a_ may be *this
         __m128d tmp = value_r;
 #ifdef FASTOR_FMA_IMPL
         value_r     = _mm_fmadd_pd(value_r  , a.value_r, _mm_mul_pd(value_i,a.value_i));
